@@ -174,6 +174,9 @@ def generate(ctx):
         if rng.random() < 0.45:
             run = rng.choice([None] + list(range(0, k + 1)))
             gc = rng.choice([None, [0.0, 1.0], [0.5, 0.5], [0.25, 0.75], [0.0, 0.5], [0.75, 0.25], [0.4, 0.6]])
+            if rng.random() < 0.5:     # bounds on a 0.05 grid (the oracle here is the filter itself applied to full k-mers)
+                a, b = sorted(rng.sample(range(0, 21), 2))
+                gc = [a / 20, b / 20]
             motifs = rng.choice([None, None, [gens.random_dna(rng, rng.randint(1, k))], [gens.random_dna(rng, rng.randint(1, k)) for _ in range(2)]])
             yield "find", dict(k=k, kind="local", cfg=dict(run=run, gc=gc, motifs=motifs))
         else:
